@@ -254,7 +254,7 @@ class C14(Check):
     rule = ('all 2^6 column-switch settings x colour {off,on} x all record streams of <=2 (quick) / <=3 (thorough) items over 9 kinds '
             '(syscalls on a declared and an undeclared thread, NEWTHREAD data/string, EXEC data/string, terminate-pid, sampler '
             'thread-data, unrelated record) x thread maps {empty, 1 entry, 2 entries, 3 entries whose tids collide with other entries\' pids, pids 2^31 and 2^32-1}, through formatted_kevents and '
-            'formatted_traces (+ one callstack dump through formatted_callstacks, one v3 log dump through formatted_logs); plus the command-line tool\'s --show-tid / --color switches against the library; plus dump '
+            'formatted_traces (+ one callstack dump through formatted_callstacks, one v3 log dump through formatted_logs); plus one 5-item group repeated N = 2^k-1, 2^k, 2^k+1 times (k = 5..11): every group after the first is formatted identically; plus the command-line tool\'s --show-tid / --color switches against the library; plus dump '
             'SEQUENCES: one parser object formats a first dump (1 item quick / <=2 thorough, any map) and then a second (<=2 items, '
             'any map) - the second dump\'s lines must equal a fresh object\'s, also when the first dump was truncated and formatting it raised. '
             'Oracle: line(config) == concatenation in fixed order of the single-column renderings; ANSI-stripped coloured line == '
@@ -276,6 +276,7 @@ class C14(Check):
         out.append(('special',))
         out.append(('long',))
         out.append(('cli',))
+        out.append(('repeat',))
         out += [('sequence', m1, i) for m1 in range(len(MAPS)) for i in range(len(ALPHA))]
         return out
 
@@ -302,6 +303,26 @@ class C14(Check):
                     acc.violation(bad[0], {'kind': 'process', 'map': m, 'seq': list(seq), 'readable': [ALPHA[i][0] for i in seq]}, bad[1])
                 elif acc.want_sample() and len(seq) == 3 and 4 in seq:
                     acc.sample({'thread_map': MAPS[m], 'stream': [ALPHA[i][0] for i in seq]})
+        elif desc[0] == 'repeat':
+            # the same complete operation N times: N identical groups of lines (batching, caps, periodic clean-ups show at N = 2^k +- 1)
+            unit = (0, 6, 2, 3, 1)
+            for N in sorted({2 ** k + d for k in range(5, 12) for d in (-1, 0, 1)}):
+                blob = dump(1, unit * N)
+                for api in ('formatted_traces', 'formatted_kevents'):
+                    try:
+                        got = lines(blob, api, [False, False, False, True, True, False], False)
+                    except Exception as ex:
+                        acc.violation('formatting-raised:' + type(ex).__name__, {'kind': 'repeat', 'N': N, 'api': api}, {'error': repr(ex)[:200]})
+                        continue
+                    per = len(got) // N if N else 0
+                    first, last = got[:per], got[-per:]
+                    acc.case(nontrivial=True, transitions=1, outcome=h64(('repeat', N, api)))
+                    # the first group differs from later ones only through the updates the group itself makes (tid 3 declared, pid 10 renamed)
+                    steady = got[per:2 * per]
+                    if len(got) != per * N or any(got[i * per:(i + 1) * per] != steady for i in range(1, N)):
+                        bad_i = next((i for i in range(1, N) if got[i * per:(i + 1) * per] != steady), None)
+                        acc.violation('repeated-operation-formatted-differently:' + api, {'kind': 'repeat', 'N': N, 'api': api},
+                                      {'lines': len(got), 'per_group': per, 'first_differing_group': bad_i})
         elif desc[0] == 'long':
             # 300 items: a formatter that batches lines (or resolves the process column late) is invisible to 3-item streams
             for m in range(len(MAPS)):
@@ -361,6 +382,11 @@ class C14(Check):
             bad, _ = judge_compose(dump(case['map'], tuple(case['seq'])), case['api'])
         elif k == 'process':
             bad = judge_process(case['map'], tuple(case['seq']))
+        elif k == 'repeat':
+            from mc.run import Acc
+            acc = Acc()
+            self.run_shard(('repeat',), acc)
+            return [(sig, v['cases'][0][1]) for sig, v in acc.violations.items()]
         elif k == 'cli':
             from mc.run import Acc
             acc = Acc()
